@@ -148,19 +148,29 @@ def gen_router_cert():
         raise ExtractError("arp_router.rs: fn demux not found")
     body = fn_body(impl, impl.index("DemuxError>", dm.end()))
     flat = re.sub(r"\s+", " ", body)
-    head = "let mut ipv4_header = *control.get::<Ipv4Header>().ok_or(DemuxError::Other)?;"
-    tail = "message.header(ipv4_header.serialize().or(Err(DemuxError::Other))?);"
-    if head not in flat or tail not in flat or flat.index(head) > flat.index(tail):
-        raise ExtractError("arp_router.rs: demux no longer reads the header / re-serialises it in the recognised form")
-    ttl_part = flat[flat.index(head) + len(head):flat.index(tail)].strip()
+    # the header copy that is modified and re-serialised (any variable name)
+    mh = re.search(r"let mut (\w+) = \*control\.get::<Ipv4Header>\(\)\.ok_or\(DemuxError::Other\)\?;", flat)
+    if not mh:
+        raise ExtractError("arp_router.rs: demux no longer copies the Ipv4Header out of the control block in the recognised form")
+    var = mh.group(1)
+    ser = flat.find(var + ".serialize()", mh.end())
+    if ser < 0:
+        raise ExtractError("arp_router.rs: demux no longer re-serialises the header")
+    # the TTL zone ends where the statement containing `.serialize()` starts
+    zone_end = max(flat.rfind(";", mh.end() - 1, ser), flat.rfind("}", mh.end() - 1, ser)) + 1
+    ttl_part = flat[mh.end():zone_end].strip()
+    V = re.escape(var)
     # statement grammar of the TTL handling
     stmts = []
     rest = ttl_part
     while rest:
-        m1 = re.match(r"ipv4_header\.time_to_live -= (\d+); ?", rest)
-        m2 = re.match(r"if ipv4_header\.time_to_live (==|<=|<) (\d+) \{ return Ok\(\(\)\); \} ?", rest)
-        m3 = re.match(r"ipv4_header\.time_to_live = ipv4_header\.time_to_live\.(saturating_sub|wrapping_sub)\((\d+)\); ?", rest)
-        if m1:
+        m0 = re.match(r"tracing::\w+!\([^;]*\); ?", rest)
+        m1 = re.match(V + r"\.time_to_live -= (\d+); ?", rest) or re.match(V + r"\.time_to_live = " + V + r"\.time_to_live - (\d+); ?", rest)
+        m2 = re.match(r"if " + V + r"\.time_to_live (==|<=|<) (\d+) \{ (?:tracing::\w+!\([^;]*\); )?return Ok\(\(\)\); \} ?", rest)
+        m3 = re.match(V + r"\.time_to_live = " + V + r"\.time_to_live\.(saturating_sub|wrapping_sub)\((\d+)\); ?", rest)
+        if m0:
+            rest = rest[m0.end():]
+        elif m1:
             stmts.append(("sub", int(m1.group(1))))
             rest = rest[m1.end():]
         elif m2:
@@ -185,16 +195,19 @@ def gen_router_cert():
             cond = f"ttl == {st[2]}" if st[1] == "==" else f"decide (ttl {op} {st[2]})"
             lean_lines.append(f"  if {cond} then .ok none else")
     lean_lines.append("  .ok (some ttl)")
-    after = flat[flat.index(tail):]
+    after = flat[zone_end:]
     loops = len(re.findall(r"\b(for|while|loop)\b", flat))
     sends = flat.count("send_pci(")
     spawns = flat.count("tokio::spawn(")
-    by_dest = ".get_recipient(ipv4_header.destination)" in after
-    gw_or_dest = bool(re.search(r"let gateway = match pair\.0 \{ Some\(address\) => address, None => ipv4_header\.destination, \};", after))
-    arp_on_slot = bool(re.search(r"let slot = pair\.1;", after)) and "local: self.local_ips[slot as usize], remote: gateway," in after \
-        and "arp.resolve(address_pair, slot, machine.clone()).await" in after \
-        and bool(re.search(r"machine\.protocol::<Pci>\(\)\.unwrap\(\)\.open\(slot\)", after)) \
-        and "send_pci(message, Some(mac), TypeId::of::<Ipv4>())" in after
+    # structural facts, tolerant of local renames
+    by_dest = bool(re.search(r"\.get_recipient\(\s*" + V + r"\.destination\s*\)", after))
+    gw_or_dest = bool(re.search(r"match (\w+)\.0 \{ Some\((\w+)\) => \2, None => " + V + r"\.destination,? \}", after)) \
+        or bool(re.search(r"\w+\.0\.unwrap_or\(\s*" + V + r"\.destination\s*\)", after))
+    mres = re.findall(r"\.resolve\(\s*\w+\s*,\s*(\w+)\s*,", after)
+    mopen = re.findall(r"\.open\(\s*(\w+)\s*\)", after)
+    msend = re.findall(r"\.send_pci\(\s*\w+\s*,\s*Some\(\s*\w+\s*\)\s*,\s*TypeId::of::<Ipv4>\(\)\s*\)", after)
+    mloc = re.findall(r"local: self\.local_ips\[(\w+) as usize\]", after)
+    arp_on_slot = len(mres) == 1 and len(mopen) == 1 and len(msend) == 1 and len(mloc) == 1 and mres[0] == mopen[0] == mloc[0]
     start = re.sub(r"\s+", " ", fn_body(impl, impl.index("StartError>", re.search(r"async\s+fn\s+start\s*\(", impl).end())))
     wild = [pn for pn, name in ((6, "TCP"), (17, "UDP"))
             if re.search(r"ipv4\.listen\( self\.id\(\), Ipv4Address::CURRENT_NETWORK, machine(\.clone\(\))?, ProtocolNumber::%s, \)" % name, start)]
